@@ -81,6 +81,7 @@ def check_fourier(ctx, X, kind):
     key = {"data": X.tolist()}
     ctx.count(key, nontrivial=T >= 8)
     ctx.stat("fourier:" + kind)
+    ctx.sample({"N": N, "T": T, "data": kind})
     ctx.stat("T odd" if T % 2 else "T even")
     tags = {"data": kind, "even": T % 2 == 0}
     np.random.seed(ctx.rng.randrange(2 ** 32))
